@@ -949,6 +949,22 @@ def check_C19(chk, binp):
         for i in bm[:3]:
             chk.violation('correspondence broken (search model) on %s: code %s model %s' % (cases[i], (impl[i] or '')[:300], (model[i] or '')[:300]), {'kind': 'correspondence', 'case': cases[i], 'code': impl[i], 'model': model[i]}, found_input=False)
 
+def forced_schedule_cases(rnd, sel, n, depths=(1, 2, 2, 3)):
+    """msearch cases: hasher seed, run seed, depth limit, workers, tables, buckets, history, schedule, chain of FENs"""
+    out = []
+    small = [f for f in sel if sum(c.isalpha() for c in f.split(' ')[0]) <= 7]
+    for k in range(n):
+        f = rnd.choice(small) if small and (k % 4 != 3) else rnd.choice(sel)
+        men = sum(c.isalpha() for c in f.split(' ')[0])
+        d = rnd.choice(depths) if men <= 7 else rnd.choice([1, 2])
+        nw = rnd.choice([2, 2, 3, 4])
+        L = rnd.choice([0, 3, 17, 60, 250, 1500])
+        sched = ','.join(str(rnd.randrange(1 << 20)) for _ in range(L)) or '-'
+        chain = f if rnd.random() < 0.6 or not small else '|'.join([f, rnd.choice(small)])
+        nt, nb = rnd.choice([(1, 1), (2, 16), (4, 64), (1, 4)])
+        out.append('msearch\t%d\t%d\t%d\t%d\t%d\t%d\t-\t%s\t%s' % (rnd.randrange(1 << 30), rnd.randrange(1 << 50), d, nw, nt, nb, sched, chain))
+    return out
+
 def check_C03(chk, binp):
     quick = chk.tier == 'quick'
     rnd = random.Random(chk.seed)
@@ -981,7 +997,17 @@ def check_C03(chk, binp):
                     f1 = ' '.join([p[0], p[1], r1] + p[3:]); f2 = ' '.join([p[0], p[1], r2] + p[3:])
                     mw.append('search\t%d\t%d\t3\t-\t1\t4\t256\t-\t%s|%s' % (rnd.randrange(1 << 30), rnd.randrange(1 << 50), f1, f2))
     mimpl = run_cases(binp, mw, 'C03-mw-impl', shards=8)
-    allc = cases + mw; alli = impl + mimpl
+    # FORCED SCHEDULES: 2..4 workers whose table operations are served in a seeded order (yield-point hook); the n-worker model
+    # (model/Conc.v, the object of the C03_conc / C06_conc theorems) runs under the same schedule: events, final table, schedule use
+    ms = forced_schedule_cases(rnd, sel, 28 if quick else 400)
+    msi = run_cases(binp, ms, 'C03-ms-impl', shards=8, timeout=900)
+    msi2 = run_cases(binp, list(reversed(ms)), 'C03-ms-impl2', shards=5, timeout=900)[::-1]
+    msm = run_cases(MODEL, ms, 'C03-ms-model', timeout=1500)
+    bs2 = stream(chk, 'forced schedules (2..4 workers): events + final table + schedule entries used, run 1 vs run 2', ms, msi, msi2, 'the same code under the same schedule, second process')
+    bsm = stream(chk, 'forced schedules (2..4 workers): events + final table + schedule entries used', ms, msi, msm, 'extracted n-worker model (Conc.analyze_iterativeM) under the same schedule')
+    chk.extra['forced_schedules'] = {'cases': len(ms), 'workers': hist([c.split('\t')[4] for c in ms]), 'schedule_lengths': hist([str(len(c.split('\t')[8].split(',')) if c.split('\t')[8] != '-' else 0) for c in ms]),
+                                    'entries_used': hist([tok[1:] for o in msi if o for tok in o.split(' ') if tok.startswith('S')])}
+    allc = cases + mw + ms; alli = impl + mimpl + msi
     bad, nlines = check_lines_legal(chk, 'C03', allc, alli)
     chk.streams.append({'name': 'every reported line legal move by move (1..8 workers)', 'against': 'extracted rules specification', 'cases': nlines, 'disagreements': len(bad)})
     noreport = []
@@ -997,8 +1023,8 @@ def check_C03(chk, binp):
     chk.evaluations += len(mw)
     for c in allc:
         chk.distinct.add(c.split('\t', 2)[2])
-    chk.extra['workers_used'] = hist([c.split('\t')[5] for c in allc])
-    chk.rule = 'searches (depth 1..3) of live positions through the synchronous hook entry: fresh and reused artifacts (chains of 1..4 searches, including position pairs differing only in castling rights / en-passant state), tables 1x1 .. 4x64 to force displacement, 1 worker (exact model equality) and 2..8 real worker threads (lines checked against the rules)'
+    chk.extra['workers_used'] = hist([c.split('\t')[4 if c.startswith('msearch') else 5] for c in allc])
+    chk.rule = 'searches (depth 1..3) of live positions through the synchronous hook entry: fresh and reused artifacts (chains of 1..4 searches, including position pairs differing only in castling rights / en-passant state), tables 1x1 .. 4x64 to force displacement, 1 worker (exact model equality), 2..8 real worker threads (lines checked against the rules), and 2..4 workers under forced seeded schedules of their table operations (exact equality with the n-worker model: events, final table content, schedule entries used)'
     chk.samples += [{'case': cases[0], 'code': impl[0]}, {'case': mw[0], 'code': mimpl[0]}]
     for (i, f, ev, line), r in bad[:3]:
         chk.violation('reported line is not legal (%s) in %s: line %s (case %s)' % (r, f, line, allc[i]), {'kind': 'history', 'case': allc[i], 'fen': f, 'line': line, 'verdict': r}, found_input=True)
@@ -1007,6 +1033,11 @@ def check_C03(chk, binp):
     if not bad and not noreport:
         for i in bm[:3]:
             chk.violation('correspondence broken (search model) on %s' % cases[i], {'kind': 'correspondence', 'case': cases[i], 'code': impl[i], 'model': model[i]}, found_input=False)
+        for i in bsm[:3]:
+            chk.violation('correspondence broken (n-worker model under a forced schedule) on %s: code %s model %s' % (ms[i], (msi[i] or '')[:300], (msm[i] or '')[:300]), {'kind': 'correspondence', 'case': ms[i], 'code': msi[i], 'model': msm[i]}, found_input=False)
+        if not bsm:
+            for i in bs2[:3]:
+                chk.violation('the forced schedule does not determine the run (hook or scheduler broken): %s -> %s / %s' % (ms[i], (msi[i] or '')[:200], (msi2[i] or '')[:200]), {'kind': 'correspondence', 'case': ms[i], 'run1': msi[i], 'run2': msi2[i]}, found_input=False)
 
 def check_C04(chk, binp):
     quick = chk.tier == 'quick'
@@ -1154,6 +1185,22 @@ def check_C06(chk, binp):
         cases.append('search\t%d\t%d\t%d\t-\t%d\t%d\t%d\t-\t%s' % (rnd.randrange(1 << 30), rnd.randrange(1 << 50), d, workers, 4, 256, f))
         meta.append((f, None, {}, d, workers))
     impl = run_cases(binp, cases, 'C06-impl', shards=8)
+    # FORCED SCHEDULES on mate positions (2..4 workers, yield-point hook): exact equality with the n-worker model of the C06_conc
+    # theorems, and the same solver checks as every other run (completeness, first move, soundness)
+    fs = []; fsmeta = []
+    for f, n, keep in [w for w in wins if w[1] <= 3][:14 if quick else 200]:
+        d = rnd.choice([n, n + 1]); nw = rnd.choice([2, 3, 4]); L = rnd.choice([0, 10, 100, 1000])
+        sched = ','.join(str(rnd.randrange(1 << 20)) for _ in range(L)) or '-'
+        fs.append('msearch\t%d\t%d\t%d\t%d\t4\t256\t-\t%s\t%s' % (rnd.randrange(1 << 30), rnd.randrange(1 << 50), d, nw, sched, f)); fsmeta.append((f, n, keep, d, nw))
+    for f in rnd.sample(nomate, min(len(nomate), 10 if quick else 200)):
+        d = rnd.choice([1, 2]); nw = rnd.choice([2, 3, 4]); L = rnd.choice([0, 10, 100, 1000])
+        sched = ','.join(str(rnd.randrange(1 << 20)) for _ in range(L)) or '-'
+        fs.append('msearch\t%d\t%d\t%d\t%d\t4\t256\t-\t%s\t%s' % (rnd.randrange(1 << 30), rnd.randrange(1 << 50), d, nw, sched, f)); fsmeta.append((f, None, {}, d, nw))
+    fsi = run_cases(binp, fs, 'C06-fs-impl', shards=8, timeout=900)
+    fsm = run_cases(MODEL, fs, 'C06-fs-model', timeout=1500)
+    bfs = stream(chk, 'forced schedules (2..4 workers) on mate / no-mate positions: events + final table + schedule entries used', fs, fsi, fsm, 'extracted n-worker model (Conc.analyze_iterativeM) under the same schedule')
+    nfs0 = len(cases)
+    cases += fs; impl += fsi; meta += fsmeta
     single = [i for i, m in enumerate(meta) if m[4] == 1 and m[3] <= (3 if quick else 4)]      # the extracted model is slow on deep searches
     model = run_cases(MODEL, [cases[i] for i in single], 'C06-model')
     bm = [single[j] for j in stream(chk, 'single worker: events + node trace on mate positions', [cases[i] for i in single], [impl[i] for i in single], model, 'extracted search model')]
@@ -1267,6 +1314,9 @@ def check_C06(chk, binp):
             chk.violation('%s: %s -> %s' % (msg, c, (out or '')[:200]), {'kind': 'input', 'case': c, 'what': msg, 'code': out}, found_input=True)
         for i in bm[:3]:
             chk.violation('correspondence broken (search model) on %s' % cases[i], {'kind': 'correspondence', 'case': cases[i]}, found_input=False)
+    if not (incomplete or wrongmove or unsound) and bfs:
+        for j in bfs[:3]:
+            chk.violation('correspondence broken (n-worker model under a forced schedule) on %s: code %s model %s' % (fs[j], (fsi[j] or '')[:300], (fsm[j] or '')[:300]), {'kind': 'correspondence', 'case': fs[j], 'code': fsi[j], 'model': fsm[j]}, found_input=False)
 
 def check_C17(chk, binp):
     quick = chk.tier == 'quick'
